@@ -19,7 +19,7 @@ type c06 struct{ base }
 
 func init() {
 	runner.Register(&c06{base{id: "C06", level: "exploration",
-		rule: "(a) typed matrix, exhaustive: every comparator x (11 x 11) left/right kinds (ten types + absent; left a path, right a path or a :value) with 2 representative values each; every function x argument kinds; BETWEEN and IN x kinds; paths through missing parents and list indexes inside / at / past the end; (b) seeded ASTs to depth 4 (thorough 6) over a 6-attribute item universe incl. nested paths and #aliases, rendered with random legal spacing and only the parentheses precedence requires; (c) a sample replayed through PutItem condition, Scan filter and Query key+filter on both adapters. Monitors: result in the oracle's admissible set {true,false,reject}; a runtime panic is never admissible; the item passed in is deep-compared before/after; the same case re-evaluated with permuted set-member order must agree. non-trivial = mentions >=1 present attribute and the oracle's value changes under some single-attribute removal; distinct by (AST skeleton, operand kind vector).",
+		rule: "(a) typed matrix, exhaustive: every comparator x (11 x 11) left/right kinds (ten types + absent; left a path, right a path or a :value) with 2 representative values each; every function x argument kinds; BETWEEN and IN x kinds; paths through missing parents and list indexes inside / at / past the end; #name placeholders for 20 attribute names that are no identifiers (a.b, l[0], a b, 1a, reserved words …) at top level and as map members, on items with / without the literally named attribute and with / without the decoy a path reading of the name would address; (b) seeded ASTs to depth 4 (thorough 6) over a 6-attribute item universe incl. nested paths and #aliases, rendered with random legal spacing and only the parentheses precedence requires; (c) a sample replayed through PutItem condition, Scan filter and Query key+filter on both adapters. Monitors: result in the oracle's admissible set {true,false,reject}; a runtime panic is never admissible; the item passed in is deep-compared before/after; the same case re-evaluated with permuted set-member order must agree. non-trivial = mentions >=1 present attribute and the oracle's value changes under some single-attribute removal; distinct by (AST skeleton, operand kind vector).",
 		assumptions: commonAssumptions}})
 }
 
@@ -145,7 +145,102 @@ func c06Matrix() []c06Case {
 		out = append(out, c06Case{Cond: &refmodel.Cond{Op: "in", Args: []refmodel.Operand{po, valX}}, Item: doc, Values: val.Item{":x": val.Str("a")}, Tag: "path-in"})
 		out = append(out, c06Case{Cond: &refmodel.Cond{Op: "between", Args: []refmodel.Operand{po, valX, valR}}, Item: doc, Values: val.Item{":x": val.Str("a"), ":r": val.Str("b")}, Tag: "path-between"})
 	}
+	// #name placeholders standing for attribute names that are no identifiers (dots, brackets, spaces,
+	// digits first, reserved words ...): the placeholder names the attribute with exactly that name - it is
+	// never re-read as a document path - at top level and as a map member, whether or not the item also
+	// holds what the "path reading" of the name would address
+	for _, hn := range c06HostileNames {
+		top := refmodel.Path{{Name: hn, Alias: "#h"}}
+		nested := refmodel.Path{{Name: "m"}, {Name: hn, Alias: "#h"}}
+		items := []val.Item{
+			{hn: val.Str("a"), "m": val.Map(map[string]val.V{hn: val.Str("a")}), "z": val.Str("bystander")},
+			{"z": val.Str("bystander"), "m": val.Map(map[string]val.V{"zz": val.Str("a")})},
+		}
+		// the decoys: what a path reading of the name would find
+		decoy := val.Item{"z": val.Str("bystander")}
+		for k, v := range c06Decoy(hn, val.Str("a")) {
+			decoy[k] = v
+		}
+		both := decoy.Clone()
+		both[hn] = val.Str("b")
+		both["m"] = val.Map(map[string]val.V{hn: val.Str("b"), "app": val.Map(map[string]val.V{"version": val.Str("a")}), "a": val.Map(map[string]val.V{"b": val.Str("a")})})
+		items = append(items, decoy, both)
+		for _, it := range items {
+			for _, pth := range []refmodel.Path{top, nested} {
+				po := refmodel.Operand{Kind: "path", Path: pth}
+				out = append(out, c06Case{Cond: &refmodel.Cond{Op: "exists", Args: []refmodel.Operand{po}}, Item: it, Values: val.Item{}, Tag: "alias-exists"})
+				out = append(out, c06Case{Cond: &refmodel.Cond{Op: "notexists", Args: []refmodel.Operand{po}}, Item: it, Values: val.Item{}, Tag: "alias-notexists"})
+				for _, cmp := range []string{"=", "<>"} {
+					out = append(out, c06Case{Cond: &refmodel.Cond{Op: "cmp", Cmp: cmp, Args: []refmodel.Operand{po, valX}}, Item: it, Values: val.Item{":x": val.Str("a")}, Tag: "alias-cmp"})
+				}
+				out = append(out, c06Case{Cond: &refmodel.Cond{Op: "cmp", Cmp: "=", Args: []refmodel.Operand{{Kind: "size", Path: pth}, valX}}, Item: it, Values: val.Item{":x": val.Num("1")}, Tag: "alias-size"})
+				out = append(out, c06Case{Cond: &refmodel.Cond{Op: "begins", Args: []refmodel.Operand{po, valX}}, Item: it, Values: val.Item{":x": val.Str("a")}, Tag: "alias-begins"})
+			}
+		}
+	}
 	return out
+}
+
+var c06HostileNames = []string{"a.b", "app.version", "m.x", "l[0]", "a[1]", "a b", "a-b", "1a", "a:b", "a#b", "size", "SET", "é", "a.b.c", ".", "#h", ":x", "a.", ".a", "a\\.b"}
+
+// c06Decoy builds what a path reading of a hostile name would address ("a.b" -> a:{b:v}, "l[0]" -> l:[v]).
+func c06Decoy(name string, v val.V) val.Item {
+	out := val.Item{}
+	if i := strings.Index(name, "["); i > 0 {
+		out[name[:i]] = val.List(v, v, v)
+		return out
+	}
+	parts := strings.Split(name, ".")
+	if len(parts) < 2 || parts[0] == "" {
+		return out
+	}
+	cur := v
+	for i := len(parts) - 1; i >= 1; i-- {
+		cur = val.Map(map[string]val.V{parts[i]: cur})
+	}
+	out[parts[0]] = cur
+	return out
+}
+
+// c06AliasQuirk returns the library's reading of the #name placeholders of a case, as an alternative item:
+//   - dotted-alias-as-path: a placeholder whose target contains '.' is re-read as a document path WHEN NO
+//     ATTRIBUTE WITH THAT LITERAL NAME EXISTS (pinned by the repository's evaluator tests: #pos -> ":nestedMap.lvl1.lvl2");
+//   - alias-into-values: item attributes and :value placeholders share one namespace, so a placeholder whose
+//     target starts with ':' and equals a supplied value key addresses that value.
+func c06AliasQuirk(cs c06Case) (string, val.Item) {
+	alt := cs.Item.Clone()
+	quirk := ""
+	for _, pth := range cs.Cond.Paths() {
+		if pth[0].Alias != "" {
+			n := pth[0].Name
+			if v, ok := cs.Values[n]; ok && strings.HasPrefix(n, ":") {
+				alt[n] = v
+				quirk = "alias-into-values"
+				continue
+			}
+			if _, have := cs.Item[n]; !have && strings.Contains(n, ".") {
+				if v, ok := refmodel.P(strings.Split(n, ".")...).Resolve(cs.Item); ok {
+					alt[n] = v
+					quirk = "dotted-alias-as-path"
+				}
+			}
+		}
+		if len(pth) == 2 && pth[1].Alias != "" && strings.Contains(pth[1].Name, ".") {
+			n := pth[1].Name
+			if parent, ok := cs.Item[pth[0].Name]; ok && parent.K == val.KM {
+				if _, have := parent.M[n]; !have {
+					full := append([]string{pth[0].Name}, strings.Split(n, ".")...)
+					if v, ok := refmodel.P(full...).Resolve(cs.Item); ok {
+						np := parent.Clone()
+						np.M[n] = v
+						alt[pth[0].Name] = np
+						quirk = "dotted-alias-as-path"
+					}
+				}
+			}
+		}
+	}
+	return quirk, alt
 }
 
 var c06MatrixCache []c06Case
@@ -296,6 +391,12 @@ func (p *c06) evalCase(x *res, cs c06Case, rr refmodel.RenderOpts, viaClient boo
 		return
 	}
 	if got&want == 0 {
+		// two listed findings about #name placeholders: each is recognised by re-running the oracle under the
+		// library's reading; only a disagreement that this reading explains is filed under the finding
+		if q, alt := c06AliasQuirk(cs); q != "" && got&cs.Cond.Eval(alt, cs.Values) != 0 {
+			x.viol("wrong-outcome~"+q, "alias", fmt.Sprintf("Match(%q) with names %v on %s with %s = %s (%s); oracle admits %s", expr, names, cs.Item.Canon(), cs.Values.Canon(), outcomeName(got), msg, want), wit)
+			return
+		}
 		feat := feature()
 		if cs.Cond.Depth() > 1 {
 			// find a leaf that already disagrees to make the signature precise
